@@ -223,6 +223,19 @@ mod verif_driver_redeemers {
         }
         // ---- all purposes together ----
         check(&Case { inputs: vec![(vec![(0x33, 1)], Some(100)), (vec![(0x11, 0)], Some(101))], mints: vec![(0xbb, Some(200))], burns: vec![(0xaa, Some(201))], withdrawals: vec![(0x02, Some(300)), (0x01, Some(301))] }, "combined", &mut n);
+        // ---- C14: a constant IR sent by a client may hold an input with a redeemer and NO utxo: an error, never a panic ----
+        for r in [Some(100), None] {
+            let c = Case { inputs: vec![(vec![], r)], mints: vec![], burns: vec![], withdrawals: vec![] };
+            let tx = build(&c);
+            n += 1;
+            let prev = std::panic::take_hook();
+            std::panic::set_hook(Box::new(|_| {}));
+            let out = std::panic::catch_unwind(std::panic::AssertUnwindSafe(|| produced(&tx)));
+            std::panic::set_hook(prev);
+            if out.is_err() {
+                witness("c14_cardano/compile_spend_redeemers#reachable-panic", "compile_spend_redeemers", format!("{} class=input-without-utxos", describe(&c)), "panic".into(), "Ok or Err");
+            }
+        }
         println!("VERIF-CASES fn=compile_redeemers n={n}");
         println!("VERIF-CASES fn=compile_spend_redeemers n={n}");
         println!("VERIF-CASES fn=compile_single_spend_redeemer n={n}");
